@@ -141,7 +141,14 @@ async def _inverse_for_class(ctx: Any, dpt: Any, payloads: list[Any]) -> None:
                     ctx.violation(f"decode_dpt_payload-refuses-int-form-of-payload-it-accepts-as-list-{type(exc).__name__}", {**wit, "exception": repr(exc)[:200]},
                                   f"{name}: decode(payload={payload}) raised {exc!r:.80} but decode(payload=[{payload}]) is accepted")
             else:
-                ctx.count(f"recorded_decode_raised_{type(exc).__name__}")
+                other = vts[0] if vt != vts[0] else vts[-1]
+                try:
+                    await decode_dpt_payload(DecodeDptPayloadInput(payload=payload, value_type=other))
+                except BaseException:  # noqa: BLE001
+                    ctx.count(f"recorded_decode_raised_{type(exc).__name__}")
+                else:
+                    ctx.violation(f"decode_dpt_payload-rejects-one-identifier-form-of-a-listed-type-{type(exc).__name__}", {**wit, "accepted_as": other, "exception": repr(exc)[:200]},
+                                  f"{name}: decode(value_type={vt!r}) raised {exc!r:.80} but value_type={other!r} (same type) is accepted")
             continue
         ctx.count("decoded")
         back = _json_native(ctx, "decode_dpt_payload", dec, wit)
@@ -555,6 +562,106 @@ def _bus_tools(ctx: Any) -> None:
         h.close()
 
 
+async def _identifiers(ctx: Any) -> None:
+    """Every identifier list_dpts hands out (number string, value type name as listed) is accepted by the other tools."""
+    full = await list_dpts(DptFilter(limit=100000))
+    by_number = {d.dpt_number_str(): d for d in DPTBase.dpt_class_tree()}
+    for i, summary in enumerate(full.dpts):
+        if not ctx.mine(i):
+            continue
+        dpt = by_number.get(summary.dpt)
+        forms = [summary.dpt] + ([summary.value_type] if summary.value_type else [])
+        # a payload and value the number form accepts (reference spelling)
+        n = summary.payload_length or 1
+        ref_payload: Any = None
+        ref_value: Any = None
+        for cand in ([0] * n, [1] + [0] * (n - 1), [0] * (n - 1) + [1], [0x0C, 0x1A][:n] + [0] * max(0, n - 2)):
+            p = cand[0] if summary.payload_type == "binary" else cand
+            try:
+                ref_value = (await decode_dpt_payload(DecodeDptPayloadInput(payload=p, value_type=summary.dpt))).value
+                ref_payload = (await encode_dpt_payload(EncodeDptPayloadInput(value=ref_value, value_type=summary.dpt))).payload
+                break
+            except BaseException:  # noqa: BLE001
+                continue
+        for ident in forms:
+            for spelled in dict.fromkeys((ident, f" {ident} ")):
+                ctx.ev()
+                wit = {"listed": {"dpt": summary.dpt, "value_type": summary.value_type}, "identifier": spelled}
+                ctx.count("identifiers_checked")
+                try:
+                    det = await describe_dpt(spelled)
+                except BaseException as exc:  # noqa: BLE001
+                    ctx.violation(f"describe_dpt-raises-for-listed-identifier-{type(exc).__name__}", {**wit, "exception": repr(exc)[:200]}, f"describe_dpt({spelled!r}) raised {exc!r:.100}")
+                    continue
+                _json_native(ctx, "describe_dpt", det, wit)
+                if spelled == ident and (not det.found or det.dpt is None or det.dpt.dpt != summary.dpt or det.dpt.value_type != summary.value_type):
+                    ctx.violation("describe_dpt-does-not-resolve-identifier-listed-by-list_dpts", {**wit, "found": det.found, "resolved": None if det.dpt is None else [det.dpt.dpt, det.dpt.value_type]},
+                                  f"list_dpts lists {summary.dpt} / {summary.value_type!r}; describe_dpt({spelled!r}) -> found={det.found} {None if det.dpt is None else (det.dpt.dpt, det.dpt.value_type)}")
+                    continue
+                if spelled != ident:
+                    ctx.count("recorded_padded_identifier_" + ("found" if det.found else "not_found"))
+                    continue
+                ctx.count("identifiers_described")
+                if ref_payload is None:
+                    ctx.count("recorded_no_reference_payload")
+                    continue
+                try:
+                    got_v = (await decode_dpt_payload(DecodeDptPayloadInput(payload=ref_payload, value_type=ident))).value
+                    got_p = (await encode_dpt_payload(EncodeDptPayloadInput(value=ref_value, value_type=ident))).payload
+                except BaseException as exc:  # noqa: BLE001
+                    ctx.violation(f"encode-decode-tools-reject-identifier-listed-by-list_dpts-{type(exc).__name__}", {**wit, "payload": ref_payload, "exception": repr(exc)[:200]},
+                                  f"list_dpts lists {summary.dpt} / {summary.value_type!r}; the encode/decode tools with value_type={ident!r} raise {exc!r:.100} (value_type={summary.dpt!r} works)")
+                    continue
+                if not same(got_v, ref_value) or got_p != ref_payload:
+                    ctx.violation("identifier-forms-of-one-type-give-different-results", {**wit, "payload": ref_payload, "by_number": repr(ref_value)[:100], "by_identifier": repr(got_v)[:100], "encoded": got_p},
+                                  f"{summary.dpt}: decode/encode by {ident!r} gives {got_v!r:.60} / {got_p}, by number {ref_value!r:.60} / {ref_payload}")
+                else:
+                    ctx.count("identifiers_accepted_by_encode_decode")
+        ctx.distinct(("identifier", summary.dpt.split(".")[0], len(forms), dpt is not None))
+
+
+async def _runtime_types(ctx: Any) -> None:
+    """Types registered after the first listing (vendor DPTs) are listed too. Runs last: the classes stay registered."""
+    from xknx.dpt import DPTTemperature, DPTValue1Ucount
+
+    before = await list_dpts(DptFilter(limit=100000))
+    n_before = before.total_count
+    tag = f"s{ctx.shard}"
+    new_a = type("DPTVerifVendorA", (DPTValue1Ucount,), {"dpt_main_number": 5, "dpt_sub_number": 60001, "value_type": f"verif_vendor_a_{tag}", "unit": "vnd"})
+    new_b = type("DPTVerifVendorB", (DPTTemperature,), {"dpt_main_number": 9, "dpt_sub_number": 60002, "value_type": f"verif_vendor_b_{tag}", "unit": "°V"})
+    new = [new_a, new_b]
+    if not all(c in set(DPTBase.dpt_class_tree()) for c in new):
+        ctx.inconclusive("harness: runtime-defined DPT classes are not in DPTBase.dpt_class_tree()")
+        return
+    idents = [_ident(c.dpt_number_str(), c.value_type) for c in new]
+    for wit, flt in (({"filter": "none"}, {}), ({"filter": "text=verif_vendor"}, {"text": "verif_vendor"}), ({"filter": "main=5"}, {"main": 5}), ({"filter": "main=9,text=°v"}, {"main": 9, "text": "°v"})):
+        for limit in (100000, 7, 1):
+            ctx.ev()
+            walked: list[str] = []
+            offset: int | None = 0
+            pages = 0
+            while offset is not None and pages < 400:
+                page = await list_dpts(DptFilter(limit=limit, offset=offset, **flt))
+                pages += 1
+                walked += [_ident(x.dpt, x.value_type) for x in page.dpts]
+                offset = page.next_offset if page.dpts else None
+            ctx.count("runtime_type_listings")
+            expect = [i for i, c in zip(idents, new, strict=True) if ("main" not in flt or c.dpt_main_number == flt["main"]) and ("text" not in flt or flt["text"] in f"{c.dpt_number_str()} {c.value_type} {c.unit}".lower())]
+            counts = {i: walked.count(i) for i in expect}
+            if any(v != 1 for v in counts.values()) or (not flt and len(walked) != n_before + len(new)):
+                ctx.violation("list_dpts-misses-type-registered-after-first-listing", {**wit, "limit": limit, "occurrences": counts, "listed": len(walked), "before": n_before},
+                              f"after defining {[c.__name__ for c in new]} list_dpts({wit['filter']}, limit={limit}) lists them {counts} times ({len(walked)} entries, {n_before} before)")
+            else:
+                ctx.count("runtime_types_listed_once")
+    for c in new:
+        for ident in (c.dpt_number_str(), c.value_type):
+            det = await describe_dpt(ident)
+            ctx.count("runtime_type_identifiers_checked")
+            if not det.found or det.dpt is None or det.dpt.value_type != c.value_type:
+                ctx.violation("describe_dpt-does-not-resolve-type-registered-at-runtime", {"identifier": ident}, f"describe_dpt({ident!r}) does not resolve the runtime-defined {c.__name__}")
+    ctx.distinct(("runtime-types", len(new)))
+
+
 def run(ctx: Any) -> None:
     ctx.rule = (
         "per DPT class: payloads (all 6-bit values; all 1-octet; 2-octet exhaustive in thorough / edge grid + 100 random in quick; longer: per-position "
@@ -562,7 +669,7 @@ def run(ctx: Any) -> None:
         "describe_dpt for every number and value-type name; read/send tools on a real XKNX with generated inputs. distinct = (class, outcome, JSON type) "
         "/ (filter shape, limit class, #pages) / (tool, outcome, input types)"
     )
-    ctx.require("results_checked", "decoded", "encoded", "inverse_checked", "inverse_held", "encode_first_checked", "encode_first_falsy_payload_decoded", "page_walks", "page_walks_exact", "pages_fetched", "filter_selections_judged", "filter_selections_as_documented", "needle_sweep",
+    ctx.require("results_checked", "decoded", "encoded", "inverse_checked", "inverse_held", "encode_first_checked", "encode_first_falsy_payload_decoded", "page_walks", "page_walks_exact", "pages_fetched", "identifiers_checked", "identifiers_described", "identifiers_accepted_by_encode_decode", "runtime_type_listings", "runtime_types_listed_once", "filter_selections_judged", "filter_selections_as_documented", "needle_sweep",
                 "results_list_dpts", "results_describe_dpt", "results_decode_dpt_payload", "results_encode_dpt_payload")
     loop = new_loop()
     try:
@@ -575,9 +682,15 @@ def run(ctx: Any) -> None:
             loop.run(_inverse_for_class(ctx, dpt, _payloads(ctx, dpt)), max_vtime=10)
         loop.run(_paging(ctx), max_vtime=10)
         loop.run(_describe(ctx), max_vtime=10)
+        loop.run(_identifiers(ctx), max_vtime=10)
     finally:
         loop.finish()
     _bus_tools(ctx)
+    loop = new_loop()
+    try:
+        loop.run(_runtime_types(ctx), max_vtime=10)  # last: the new classes stay registered for the rest of the process
+    finally:
+        loop.finish()
     if True:
         ctx.require("results_read_group_value", "results_send_group_value_write", "results_send_group_value_read", "results_get_connection_status",
                     "reads_answered", "reads_unanswered", "sends_accepted", "sends_refused", "refused_sends_with_queue_unchanged")
